@@ -55,8 +55,8 @@ contract(
     ensures=_status_post,
     verify=False,
     assumed=True,
-    bounded=("bounded/status_index.py", 40, 400),
-    props=["C12"],
+    bounded=("bounded/status_index.py", 400, 5000),
+    props=["C12", "C11"],
     doc="[body to be verified] exists/missing partition the queried ids; with no index it is exact w.r.t. the store "
         "(for a local store: after the integrity filtering of C07 -- objs is the set of objects that pass it)",
 )
